@@ -229,6 +229,7 @@ func (s *placeSim) evaluate(tag string, ver string, old [][]string, fresh bool) 
 			// the state after the operator lowered the replication factor)
 			key = "v2-panic-current-list-longer-than-replica"
 			s.knownPanics++
+			c.Count("known."+key, 1)
 		}
 		s.viol("panic", key, "layout function panicked: %s; input %s", r1.panicked, desc())
 		return nil
